@@ -63,6 +63,7 @@ type pathState struct {
 	unknowns int
 	uf       map[string]*smt.Term // uninterpreted environment results on this path
 	usedUF   bool
+	syncMaps map[*value]*smap
 	// violation found mid-path (assert); path stops at first
 }
 
